@@ -396,7 +396,11 @@ void chist_gen(chist *h, const vh_cipher *c, vh_rng *r, unsigned g)
                 cop *o = &h->ops[h->n - 1]; uint8_t v[16]; unsigned q = rnd[vh_below(r, 3)]; uint64_t blocks = (trk_pos + c->bb - 1) / c->bb;
                 blocks = (blocks + q - 1) / q * q;
                 memcpy(v, trk_ctr, 16); ref_ctr_add(v, c->bb, blocks);
-                o->flags &= (uint8_t)~F_NULL_PTR; o->len = c->bb; o->dlen = c->bb; o->doff = pool_put(h, v, c->bb); o->cls = "set_counter(equal to the current stream position)";
+                o->cls = "set_counter(equal to the current stream position)";
+                if (vh_below(r, 2)) {   /* ... or the same except for one bit in one of the bytes to the left of the last one: "is it the block I already have?" tests must look at every byte */
+                    v[vh_below(r, c->bb - 1)] ^= (uint8_t)(1u << vh_below(r, 8)); o->cls = "set_counter(current stream position with one high bit changed)";
+                }
+                o->flags &= (uint8_t)~F_NULL_PTR; o->len = c->bb; o->dlen = c->bb; o->doff = pool_put(h, v, c->bb);
             }
             { const cop *o = &h->ops[h->n - 1]; memset(trk_ctr, 0, 16); if (!(o->flags & F_NULL_PTR) && o->len <= c->bb) memcpy(trk_ctr + c->bb - o->len, h->pool + o->doff, o->len); trk_pos = 0; }
             started = 0;
